@@ -101,6 +101,7 @@ type world struct {
 	server  restli.Server
 	handler http.Handler
 	ts      *httptest.Server
+	tsOnce  sync.Once
 	slots   sync.Map // call id -> *slot
 	nextID  atomic.Int64
 	filters *filterLog
@@ -232,9 +233,7 @@ type clientConfig struct {
 func (w *world) client(cfg clientConfig, sl *slot) *restli.Client {
 	c := &restli.Client{StrictResponseDeserialization: cfg.Strict, QueryTunnellingThreshold: cfg.Threshold}
 	if cfg.Transport == "http" {
-		if w.ts == nil {
-			w.ts = httptest.NewServer(w.handler)
-		}
+		w.tsOnce.Do(func() { w.ts = httptest.NewServer(w.handler) })
 		u, _ := url.Parse(w.ts.URL)
 		c.Client = w.ts.Client()
 		c.HostnameResolver = &restli.SimpleHostnameResolver{Hostname: w.baseURL(u.Host)}
